@@ -61,15 +61,15 @@ class MatchAbstraction:
 
     def model(self, E_, st, callee, a, m):
         val, pat = E_.as_str(st, a[0]), E_.as_str(st, a[1])
-        words = a[2]
-        if not (z3.is_true(words) or z3.is_false(words)):
-            raise Inconclusive('matches_pattern called with a symbolic mode')
+        words = z3.simplify(a[2]) if not isinstance(a[2], bool) else z3.BoolVal(a[2])
         p = pat.conc()
         if p is None:
             raise Inconclusive('matches_pattern called with a symbolic pattern in the dispatch harness')
         for vname, s in self.values.items():
-            if s.base.eq(val.base) and z3.simplify(s.off == val.off) is not None and s.base.get_id() == val.base.get_id():
-                return [(TRUE, self.var(vname, p, z3.is_true(words)))]
+            if s.base.eq(val.base) and s.base.get_id() == val.base.get_id():
+                if z3.is_true(words) or z3.is_false(words):
+                    return [(TRUE, self.var(vname, p, z3.is_true(words)))]
+                return [(words, self.var(vname, p, True)), (z3.Not(words), self.var(vname, p, False))]
         raise Inconclusive(f'matches_pattern called on a value the harness does not know: {val}')
 
 
@@ -273,7 +273,7 @@ def run_conditions(C, job):
     # value under the condition's key: any flattened value
     vtag = z3.BitVec('value_kind', 8); cons.append(z3.ULE(vtag, 5))     # Null Bool Integer String Array EmptyObject
     vb, vi = z3.Bool('value_bool'), z3.BitVec('value_int', 64); cons += [vi >= -INT_MAX, vi <= INT_MAX]
-    vs, cs = sym_text(E, 'value_str', 3); cons += cs
+    vs, cs = sym_text(E, 'value_str', 4); cons += cs
     # array of two scalars
     def scalar(pfx):
         t = z3.BitVec(pfx + '_kind', 8); cons.append(z3.ULE(t, 3))     # Null Bool Integer String
@@ -310,7 +310,7 @@ def run_conditions(C, job):
     notauser = E.const_str(b'nobody')
     sender_str_outs = [(z3.Not(sender_bad), sender.str), (sender_bad, notauser)]
 
-    def mk_ev(value_outs, sender_s):
+    def mk_ev(value_outs, sender_s, key=key):
         ents = [(S(E.const_str(b'sender')), Adt(FJV, 'String', [S(sender_s)]), has_sender),
                 (S(E.const_str(b'content.body')), Adt(FJV, 'String', [S(body)]), has_body)]
         return [(c, struct(E, FJ, map=Obj('SymMap', tuple(ents + [(S(E.const_str(key)), v, has_key)])))) for c, v in value_outs]
@@ -339,6 +339,10 @@ def run_conditions(C, job):
     if which == 'event_match':
         conds.append(('event_match on an arbitrary key', [(TRUE, event_match(key, b'pat'))], ev_simple,
                       lambda: z3.And(has_key, vtag == 3, M.var('value', b'pat', False))))
+        # properties whose path merely resembles content.body are matched as whole-value globs
+        for k2 in (b'content.formatted_body', b'body', b'content.body2', b'Content.Body', b'content.m\\.new_content.body'):
+            conds.append((f'event_match on {k2.decode()}', [(TRUE, event_match(k2, b'pat'))], ev_simple,
+                          lambda: z3.And(has_key, vtag == 3, M.var('value', b'pat', False)), k2))
         conds.append(('event_match on content.body', [(TRUE, event_match(b'content.body', b'pat'))], ev_simple,
                       lambda: z3.And(has_body, M.var('content.body', b'pat', True))))
         conds.append(('event_match on room_id', [(TRUE, event_match(b'room_id', b'pat'))], ev_simple,
@@ -379,10 +383,73 @@ def run_conditions(C, job):
         conds.append(('event_property_contains', couts, value_outs(),
                       lambda: z3.And(has_key, vtag == 4, z3.Or(z3.And(z3.UGE(arr_len, 1), scalar_eq(arr[0], cval)), z3.And(z3.UGE(arr_len, 2), scalar_eq(arr[1], cval))))))
     f = E.find_method('PushCondition', 'applies')
-    for cname, cond_outs, vouts, spec in conds:
+    lower = lambda b: z3.If(z3.And(z3.UGE(b, 65), z3.ULE(b, 90)), b + 32, b)
+    word = lambda b: z3.Or(z3.And(z3.UGE(b, 0x30), z3.ULE(b, 0x39)), z3.And(z3.UGE(b, 0x41), z3.ULE(b, 0x5A)), z3.And(z3.UGE(b, 0x61), z3.ULE(b, 0x7A)), b == 0x5F)
+    ci_at = lambda s_, off, lit: z3.And(*[lower(s_.at(off + j)) == lit[j] for j in range(len(lit))])
+
+    def define_verdicts():
+        """the pattern of every event_match condition here is the literal `pat`: its glob verdict is case-insensitive
+        equality, its word verdict (value <= 4 bytes) an occurrence delimited by a non-word byte or the ends"""
+        defs = []
+        for (vn, p_, w_), var in M.vars.items():
+            sv = M.values[vn]
+            if sv.conc() is not None:
+                defs.append(var == z3.BoolVal(sv.conc().lower() == p_)); continue
+            if vn == 'sender':
+                defs.append(z3.Not(var)); continue          # a user id never equals `pat`
+            L = len(p_)
+            if not w_:
+                defs.append(var == z3.And(sv.ln == L, ci_at(sv, 0, p_)))
+            else:
+                alts = [z3.And(sv.ln == L, ci_at(sv, 0, p_)), z3.And(sv.ln == L + 1, ci_at(sv, 0, p_), z3.Not(word(sv.at(L)))),
+                        z3.And(sv.ln == L + 1, ci_at(sv, 1, p_), z3.Not(word(sv.at(0))))]
+                defs.append(var == z3.Or(*alts))
+        return defs
+    sint = lambda m, t: (lambda x: x - (1 << 64) if x >= (1 << 63) else x)(m.eval(t, model_completion=True).as_long())
+    tru = lambda m, t: z3.is_true(m.eval(t, model_completion=True))
+
+    def scalar_json(m, sc):
+        t = m.eval(sc['t'], model_completion=True).as_long()
+        return [None, tru(m, sc['b']), sint(m, sc['i']), model_bytes(m, sc['s']).decode()][t]
+
+    def cond_vec(cname, m, evkey=key):
+        t = m.eval(vtag, model_completion=True).as_long()
+        if cname.startswith(('event_match', 'room_member', 'sender_notification', 'contains_display')):
+            val = model_bytes(m, vs).decode() if t == 3 else None
+        else:
+            n = m.eval(arr_len, model_completion=True).as_long()
+            val = [None, tru(m, vb), sint(m, vi), model_bytes(m, vs).decode(), [scalar_json(m, x) for x in arr[:n]], {}][t]
+        content = {}
+        if tru(m, has_body): content['body'] = model_bytes(m, body).decode()
+        event = {'type': 'm.room.message', 'content': content}
+        if tru(m, has_key):
+            # unflatten the (escaped) path of the third entry
+            segs = [x.replace('\\.', '.') for x in re.split(r'(?<!\\)\.', evkey.decode())]
+            cur = event
+            for sgm in segs[:-1]:
+                cur = cur.setdefault(sgm, {})
+            cur[segs[-1]] = val
+        if tru(m, has_sender): event['sender'] = 'nobody' if tru(m, sender_bad) else sender.value(m)
+        ctx = {'room_id': '!r:x', 'user_id': user.value(m), 'display_name': 'me', 'member_count': m.eval(members, model_completion=True).as_long()}
+        if tru(m, pl_present):
+            ctx['power_levels'] = {'users': ({sender.value(m): sint(m, lv_sender)} if tru(m, p_sender) else {}), 'users_default': sint(m, lv_default), 'room': sint(m, lv_room)}
+        if cname.startswith('event_match'):
+            k = {'event_match on an arbitrary key': 'content.k', 'event_match on content.body': 'content.body', 'event_match on room_id': 'room_id', 'event_match on sender': 'sender'}.get(cname, evkey.decode())
+            cj = {'kind': 'event_match', 'key': k, 'pattern': 'pat'}
+        elif cname == 'room_member_count':
+            opn = E.src.enums[resolve(E, 'ComparisonOperator', 'enums')][m.eval(z3.BitVec('operator', 64), model_completion=True).as_long()]
+            cj = {'kind': 'room_member_count', 'is': {'Eq': '==', 'Lt': '<', 'Gt': '>', 'Ge': '>=', 'Le': '<='}[opn] + str(m.eval(count, model_completion=True).as_long())}
+        elif cname.startswith('sender_notification_permission'):
+            cj = {'kind': 'sender_notification_permission', 'key': cname.split('=')[1]}
+        else:
+            cj = {'kind': cname, 'key': 'content.k', 'value': scalar_json(m, cval)}
+        return {'op': 'c12:condition', 'condition': cj, 'event': event, 'ctx': ctx}
+    for cnd in conds:
+        cname, cond_outs, vouts, spec = cnd[:4]
+        evkey = cnd[4] if len(cnd) > 4 else key
         outs = []
         for (cc, cv), (sc, ss), (xc, xv) in itertools.product(cond_outs, sender_str_outs, ctx_outs()):
-            for ec, evv in mk_ev(vouts, ss):
+            for ec, evv in mk_ev(vouts, ss, evkey):
                 st = E.new_state()
                 pc = cons + [cc, sc, xc, ec]
                 outs += E.run_func(f, [E.root_ref(st, cv), E.root_ref(st, evv), E.root_ref(st, xv)], pc, st=st)
@@ -395,12 +462,28 @@ def run_conditions(C, job):
             if o.kind != 'ret':
                 bad.append(o.cond()); continue
             bad.append(z3.And(o.cond(), o.value != want))
-        r, m = C.solve_split(f'condition {cname}: applies == the specification\'s meaning', cons + list(E.axioms), bad)
+        defs = define_verdicts()
+        r, m = C.solve_split(f'condition {cname}: applies == the specification\'s meaning', cons + defs + list(E.axioms), bad)
         C.bounds[f'condition:{cname}'] = {'paths': len(outs)}
         if r == 'sat':
-            ev_ = lambda t: m.eval(t, model_completion=True)
-            vec = {'op': 'c12:condition', 'name': cname, 'model': {str(d): str(m[d]) for d in m.decls() if not str(d).startswith(('k!', 'find', 'idx'))}}
-            raise Broken(f'condition {cname}: counterexample found; native replay for conditions is not wired yet: {str(vec)[:600]}')
+            vec = cond_vec(cname, m, evkey)
+            res = C.native(vec); vec['native'] = res
+            vec['spec'] = tru(m, want)
+            if res.get('r') == 'ok' and res.get('v') != vec['spec']:
+                C.report_violation(f'condition {cname}: PushCondition::applies answers {res.get("v")}, the specification {vec["spec"]}: condition {vec["condition"]} event {vec["event"]} context {vec["ctx"]}', vec)
+                C.samples.append({'condition_counterexample': vec})
+            else:
+                raise Broken(f'condition {cname}: model does not reproduce natively: {vec}')
+        else:
+            for wantv in (True, False):
+                r2, m = C.solve(f'condition {cname}: witness ({wantv})', cons + defs + list(E.axioms) + [want == wantv])
+                if r2 == 'sat':
+                    vec = cond_vec(cname, m, evkey)
+                    res = C.native(vec)
+                    C.model_validation += 1
+                    if res.get('r') != 'ok' or res.get('v') != wantv:
+                        raise Broken(f'condition {cname}: witness ({wantv}) disagrees natively: {res}: {vec}')
+                    C.samples.append({'condition_witness': cname, 'expected': wantv, 'native': res.get('v')})
 
 
 # ------------------------------------------------------------------------------------------------ W word match
@@ -473,6 +556,92 @@ def run_word(C, job):
                 C.samples.append({'word_witness': [v, p], 'native': res.get('v')})
 
 
+# ------------------------------------------------------------------------------------------------ R wildcard word patterns
+def run_wildcard(C, job):
+    """the regex matches_word builds for a pattern with wildcards, for every pattern shape (each position a letter, '?'
+    or '*') up to L positions with symbolic letters: equal to the specification's translation (literal runs verbatim,
+    a wildcard run with q question marks -> `.{q}`, with a star -> `.{q,}`) between the word-boundary anchors"""
+    L = job
+    E = C.fresh_engine(KEYS, N=8)
+    E.feas_mode = 'budget'; E.feas_timeout_ms = 1000; E.feas_fresh = True; E.concrete_find = True
+    captured = []
+
+    def regex_new(E_, st, callee, a, m):
+        s_ = E_.as_str(st, a[0])
+        st.note(('regex', s_))
+        return [(TRUE, ok(Obj('Regex', s_)))]
+    E.overrides.insert(0, (re.compile(r'^regex::bytes::Regex::new$|^regex::Regex::new$'), regex_new))
+    verdict = z3.Bool('regex_is_match')
+    E.overrides.insert(0, (re.compile(r'^regex::bytes::Regex::is_match$|^regex::Regex::is_match$'), lambda E_, st, callee, a, m: [(TRUE, verdict)]))
+
+    def escape(E_, st, callee, a, m):
+        s_ = E_.as_str(st, a[0])
+        # identity on ASCII letters (the only literal bytes of this harness)
+        return [(TRUE, Obj('String', s_))]
+    E.overrides.insert(0, (re.compile(r'^regex::escape$'), escape))
+    f = E.find_method('str', 'matches_word', trait='StrExt')
+    value = E.const_str(b'zz zz')
+    shapes = [sh for n in range(1, L + 1) for sh in itertools.product('L?*', repeat=n) if ('?' in sh or '*' in sh)]
+    nq = 0
+    for sh in shapes:
+        elems, cons = [], []
+        for j, c in enumerate(sh):
+            if c == 'L':
+                b = z3.BitVec(f'p{j}', 8); cons.append(z3.And(z3.UGE(b, 97), z3.ULE(b, 122))); elems.append(b)
+            else:
+                elems.append(z3.BitVecVal(ord(c), 8))
+        n = len(sh)
+        base = z3.K(z3.BitVecSort(64), z3.BitVecVal(0, 8))
+        for j, b in enumerate(elems):
+            base = z3.Store(base, z3.BitVecVal(j, 64), b)
+        pat = Str(base, z3.BitVecVal(0, 64), z3.BitVecVal(n, 64), True, n, None, n, elems)
+        outs = E.run_func(f, [value, pat], cons)
+        # expected regex text
+        exp, j = [], 0
+        while j < n:
+            if sh[j] == 'L':
+                exp.append(elems[j]); j += 1
+            else:
+                k = j
+                while k < n and sh[k] != 'L': k += 1
+                run = sh[j:k]
+                txt = '.{%d%s}' % (run.count('?'), ',' if '*' in run else '')
+                exp += [z3.BitVecVal(x, 8) for x in txt.encode()]
+                j = k
+        exp = [z3.BitVecVal(x, 8) for x in rb'(?-u:^|\W|\b)'] + exp + [z3.BitVecVal(x, 8) for x in rb'(?-u:\b|\W|$)']
+        bad = []
+        for o in outs:
+            rx = [nn[1] for nn in o.st.notes if nn[0] == 'regex']
+            if o.kind != 'ret' or len(rx) != 1:
+                bad.append(o.cond()); continue
+            r_ = rx[0]
+            same = z3.And(r_.ln == len(exp), *[r_.at(i) == exp[i] for i in range(len(exp))], o.value == verdict)
+            bad.append(z3.And(o.cond(), z3.Not(same)))
+        C.absorb(E)
+        r, m = C.solve(f'wildcard word pattern of shape {"".join(sh)}: generated regex == specification', cons + list(E.axioms) + [z3.Or(*bad) if bad else z3.BoolVal(False)])
+        nq += 1
+        if r == 'sat':
+            ptxt = bytes(m.eval(b, model_completion=True).as_long() for b in elems).decode()
+            # a value the specification's translation matches: letters as they are, one byte per '?', nothing for '*'
+            val = ptxt.replace('*', '').replace('?', 'x')
+            vec = {'op': 'c12:condition', 'condition': {'kind': 'event_match', 'key': 'content.body', 'pattern': ptxt},
+                   'event': {'content': {'body': val}, 'sender': '@a:x', 'type': 'm.room.message'}, 'ctx': {'user_id': '@me:x', 'room_id': '!r:x'}}
+            res = C.native(vec); vec['native'] = res
+            role = 'matches_word: runs of two or more wildcards'   # (fixed in /repo by 0f6eaca; the entry in known-findings.json is a  record and suppresses nothing)
+            desc = f'content.body pattern {ptxt!r} does not match {val!r} (\'?\' one character, \'*\' any run): the regex built for the pattern is not the pattern\'s translation'
+            if res.get('r') == 'ok' and res.get('v') is False:
+                if C.is_known(role) and re.search(r'[?*]{2}', ptxt):
+                    C.report_known(role, desc)
+                else:
+                    C.report_violation(desc, vec)
+                    C.samples.append({'wildcard_counterexample': vec})
+            else:
+                got = [bytes(model_bytes(m, nn[1])) for o in outs for nn in o.st.notes if nn[0] == 'regex']
+                want_ = bytes(m.eval(x, model_completion=True).as_long() for x in exp)
+                raise Broken(f'wildcard shape {"".join(sh)}: regex {got} differs from the specification\'s {want_} but the sample value still matches natively: {vec}')
+    C.bounds[f'wildcard:{L}'] = {'shapes': len(shapes), 'max_positions': L}
+
+
 def body(C):
     C.engine(KEYS, N=8)
     C.build_replayer(['common'])
@@ -480,6 +649,7 @@ def body(C):
     for w in ('event_match', 'member_count', 'sender_notification_permission', 'event_property_is', 'event_property_contains'):
         jobs.append((run_conditions, w))
     jobs.append((run_word, (7, 3) if C.tier == 'thorough' else (6, 2)))
+    jobs.append((run_wildcard, 5 if C.tier == 'thorough' else 4))
     if os.environ.get('VERIF_PARTS'):
         parts = os.environ['VERIF_PARTS'].split(',')
         jobs = [j for j in jobs if (j[0].__name__.replace('run_', '') in parts or str(j[1]) in parts)]
